@@ -139,7 +139,7 @@ class World:
             fn = ev.fn
             for (b, callee, argi, ap) in ev.events_on(t[2]):
                 aty = fn.blocks[b].term["arg_tys"][argi]
-                if aty.startswith("&mut") and callee_name(callee) not in self.READERS:
+                if aty.startswith("&mut") and not (argi == 0 and callee_name(callee) in self.READERS):
                     return t
             return ("reader", self.expand(init, depth + 1))
         if t[0] in ("int", "str", "bytes", "enum", "param", "zst", "static", "fnref", "top"):
